@@ -295,4 +295,66 @@ class C02a(Obligation):
                 ctx.check(got == ('dict', exp[1]), '**kwargs receives exactly the keyword arguments naming no parameter')
 
 
-OBLIGATIONS = [C02a, C02b]
+from jedi.inference.value import klass as jklass  # noqa: E402
+
+
+class KStub:
+    _pysym_holder = True
+
+    def __init__(self, tag, compiled, mro=None):
+        self.tag, self._compiled, self._mro = tag, compiled, mro
+        self.inference_state = None
+
+    def is_compiled(self):
+        return self._compiled
+
+    def as_context(self):
+        return ('context-of', self.tag)
+
+    def get_filters(self, is_instance=False):
+        yield ('compiled-filter', self.tag, is_instance)
+
+    def py__mro__(self):
+        return list(self._mro)
+
+    def get_metaclasses(self):
+        return []
+
+
+class C02c(Obligation):
+    id = 'C02.c'
+    title = 'attribute lookup on a class: every MRO entry is searched on behalf of the class it was asked on (descriptor owner)'
+    pattern = 'P3 (MRO and filter construction are stubs; which entries are compiled is symbolic)'
+    assumptions = ('MRO of <=3 classes, each compiled or not (symbolic); ClassFilter is a recording stub; '
+                   'is_instance=True (the type() filters of class lookups need the evaluator)',)
+
+    def configs(self, tier):
+        return [dict(n=n) for n in (1, 2, 3)]
+
+    def scenario(self, ctx, cfg):
+        n = cfg['n']
+        ks = [KStub('K%d' % i, ctx.flag('K%d_is_compiled' % i) if i else False) for i in range(n)]
+        ks[0]._mro = ks
+        ctx.int('unused')
+        ctx.patch(jklass, 'ClassFilter',
+                  lambda value, node_context=None, origin_scope=None, is_instance=False:
+                  ('tree-filter', value, node_context, origin_scope, is_instance))
+        ctx.force(jklass.ClassMixin.get_filters)
+        origin = Obj(tag='origin')
+        out = ctx.call(lambda: list(jklass.ClassMixin.get_filters(ks[0], origin_scope=origin, is_instance=True)))
+        ctx.check(out.exc is None, 'never raises')
+        if out.exc is not None:
+            return
+        fs = out.value
+        ctx.check(len(fs) == n, 'one filter per MRO entry, in MRO order')
+        for i, f in enumerate(fs[:n]):
+            if ks[i]._compiled:
+                ctx.check(f == ('compiled-filter', ks[i].tag, True), 'compiled bases answer for themselves')
+            else:
+                ctx.check(f[0] == 'tree-filter' and f[1] is ks[0],
+                          'names of a base class are bound on behalf of the class the lookup started from')
+                ctx.check(f[2] == ('context-of', ks[i].tag) and f[3] is origin and f[4] is True,
+                          'searched in the body of that MRO entry')
+
+
+OBLIGATIONS = [C02a, C02b, C02c]
